@@ -18,6 +18,9 @@ import (
 
 type stream struct{ sent, got []byte }
 
+// stressHung: a service Read of an unsynchronised session never returned
+var stressHung bool
+
 // stressStreams runs unsynchronised sessions of 4 connections and returns, per
 // connection, what the agent sent for it and what its service read until EOF.
 func stressStreams(e *env, r *hx.Rand, sessions int) []stream {
@@ -66,7 +69,15 @@ func stressStreams(e *env, r *hx.Rand, sessions int) []stream {
 		for i := 0; i < nconn; i++ {
 			s.sendMsg(Msg{T: "eof", L: l, R: &Addr{Kind: "tcp", IP: hx.B(v4pool[2]), Port: 42000 + i}})
 		}
-		wg.Wait()
+		wd := make(chan struct{})
+		go func() { wg.Wait(); close(wd) }()
+		select {
+		case <-wd:
+		case <-time.After(hangBound()):
+			stressHung = true
+			s.c.Close()
+			return out
+		}
 		for i := range want {
 			out = append(out, stream{sent: want[i], got: got[i]})
 		}
@@ -88,4 +99,57 @@ func stress(e *env, r *hx.Rand, sessions int) {
 		}
 	}
 	fmt.Fprintf(os.Stderr, "stress: %d of %d connection streams differ from what was sent\n", lost, len(ss))
+}
+
+// wakeupRounds: one connection, many rounds of "the service starts a Read at a jittered
+// moment while one data message arrives".  Every round must deliver its byte; a Read that
+// is still waiting 20 s after the message was processed was not woken (the bytes sit in the
+// buffer until the next message).  Stops at the first stuck round.
+func wakeupRounds(e *env, r *hx.Rand, rounds int) (done int, stuck bool) {
+	s, crash := e.open()
+	if crash != "" {
+		hx.Fatal("wakeup: %s", crash)
+	}
+	defer func() { s.c.Close(); s.waitDown() }()
+	l := &Addr{Kind: "tcp", IP: hx.B(v4pool[0]), Port: 80}
+	ra := &Addr{Kind: "tcp", IP: hx.B(v4pool[2]), Port: 43000}
+	s.sendMsg(Msg{T: "hello", L: l, R: ra})
+	c := s.takeAccept(2 * time.Second)
+	if c == nil {
+		hx.Fatal("wakeup: no accept")
+	}
+	spin := func(n int) {
+		x := 0
+		for i := 0; i < n*40; i++ {
+			x += i
+		}
+		_ = x
+	}
+	buf := make([]byte, 16)
+	for k := 0; k < rounds; k++ {
+		jitter := r.Intn(2500)
+		res := make(chan int, 1)
+		go func() {
+			spin(jitter)
+			c.SetReadDeadline(time.Now().Add(25 * time.Second))
+			n, err := c.Read(buf)
+			if err != nil {
+				n = -1
+			}
+			res <- n
+		}()
+		p := Pay{Lit: hx.B([]byte{byte(k % 251)})}
+		s.sendMsg(Msg{T: "data", L: l, R: ra, P: &p})
+		select {
+		case n := <-res:
+			if n != 1 || buf[0] != byte(k%251) {
+				return k, true
+			}
+		case <-time.After(20 * time.Second):
+			// unstick the reader so that it ends
+			s.sendMsg(Msg{T: "data", L: l, R: ra, P: &p})
+			return k, true
+		}
+	}
+	return rounds, false
 }
